@@ -226,7 +226,8 @@ def pairStep (c : Cfg) (sp : SpecSt) (lastExec : Option Int) (a b : SState) (exe
   else specPair c sp a b po
 
 /-- A result whose state-change report was overtaken by the next result (it was held by a subscriber of
-    its new-check-result signal): the same specification; a wrong event is reported under its own name. -/
+    its new-check-result signal): the same specification; a wrong event is reported under its own name
+    (F-C01a, repaired by b75b8e7: the report must not depend on what the overtaking result wrote). -/
 def overtakenStep (c : Cfg) (sp : SpecSt) (h : HistSt) (r : Res) (o : Obs) : Option Clause × SpecSt × HistSt :=
   match fullStep c sp h r o with
   | (some .event, sp', h') => (some .eventOvertaken, sp', h')
